@@ -16,7 +16,7 @@ def templates(rnd):
     syms = [f"S{k}" for k in range(r)]
     d = rnd.choice(DT)
     num = ops.base(d) not in ("bool",)
-    k = rnd.choice(["ew2", "ew2", "ew2mixed", "ew2mixed", "bcast", "bcast", "reduce", "reduce", "layout", "getitem", "sort", "cumsum", "where", "program", "unique", "matmul", "concat", "allany", "roll", "take_lazyidx"])
+    k = rnd.choice(["ew2", "ew2", "ew2mixed", "ew2mixed", "bcast", "bcast", "reduce", "reduce", "layout", "getitem", "sort", "cumsum", "where", "program", "unique", "matmul", "concat", "allany", "roll", "take_lazyidx", "mknull", "mknull"])
     bc = {}   # symbol -> symbol it may broadcast against (fed 1 or equal)
     if k == "ew2":
         f = rnd.choice(["add", "subtract", "multiply", "maximum" if False else "less", "equal", "logical_and" if d == "bool" else "add"])
@@ -33,6 +33,16 @@ def templates(rnd):
         impl = rnd.choice(["out = ndx.broadcast_arrays(x, y)", "out = ndx.broadcast_arrays(y, x)", "out = ndx.broadcast_to(y, nda.shape(x))",
                            "u_, v_ = ndx.broadcast_arrays(x, y); out = ndx.stack([u_, v_])"])
         return impl, {"x": syms, "y": ys}, {"x": d, "y": d}, bc
+    if k == "mknull":
+        # a mask (or nullable condition) of run-time extent 1 against values of any extent: one flag per element
+        if not num or d.startswith("n"):
+            return None
+        ys = [s + "b" for s in syms][rnd.randint(0, r - 1):]
+        for s in ys:
+            bc[s] = s[:-1]
+        impl = rnd.choice(["out = nda.make_nullable(x, y)", "r_ = nda.make_nullable(x, y); out = r_ + 1",
+                           "c_ = nda.make_nullable(y, y); out = ndx.where(c_, x, x + 1)", "r_ = nda.make_nullable(x, y); out = nda.fill_null(r_, 7)"])
+        return impl, {"x": syms, "y": ys}, {"x": d, "y": "bool"}, bc
     if k == "ew2mixed":
         # one nullable and one non-nullable operand; either may be the one that is broadcast up
         if not num or d.startswith("n"):
